@@ -415,10 +415,8 @@ func PutInsertStatement(stmt *InsertStatement) {
 		stmt.Values[i] = stmt.Values[i][:0]
 	}
 
-	// Reset slices but keep capacity
-	stmt.Columns = stmt.Columns[:0]
-	stmt.Values = stmt.Values[:0]
-	stmt.TableName = ""
+	// Reset every field; keep the capacity of the two slices that are reused
+	*stmt = InsertStatement{Columns: stmt.Columns[:0], Values: stmt.Values[:0]}
 
 	// Return to pool
 	insertStmtPool.Put(stmt)
@@ -444,10 +442,8 @@ func PutUpdateStatement(stmt *UpdateStatement) {
 	}
 	PutExpression(stmt.Where)
 
-	// Reset fields
-	stmt.Assignments = stmt.Assignments[:0]
-	stmt.Where = nil
-	stmt.TableName = ""
+	// Reset every field; keep the capacity of the assignments slice
+	*stmt = UpdateStatement{Assignments: stmt.Assignments[:0]}
 
 	// Return to pool
 	updateStmtPool.Put(stmt)
@@ -467,9 +463,8 @@ func PutDeleteStatement(stmt *DeleteStatement) {
 	// Clean up expressions
 	PutExpression(stmt.Where)
 
-	// Reset fields
-	stmt.Where = nil
-	stmt.TableName = ""
+	// Reset every field
+	*stmt = DeleteStatement{}
 
 	// Return to pool
 	deleteStmtPool.Put(stmt)
@@ -553,12 +548,9 @@ func PutSelectStatement(stmt *SelectStatement) {
 	}
 	stmt.OrderBy = stmt.OrderBy[:0]
 
-	stmt.TableName = ""
-	stmt.Where = nil
-	stmt.Limit = nil
-	stmt.Offset = nil
-	stmt.Fetch = nil
-	stmt.For = nil
+	// Reset every field (With, Distinct, From, Joins, GroupBy, Having, Windows,
+	// ... included); keep the capacity of the two slices that are reused
+	*stmt = SelectStatement{Columns: stmt.Columns, OrderBy: stmt.OrderBy}
 
 	// Return to pool
 	selectStmtPool.Put(stmt)
@@ -575,6 +567,7 @@ func PutIdentifier(ident *Identifier) {
 		return
 	}
 	ident.Name = ""
+	ident.Table = ""
 	identifierPool.Put(ident)
 }
 
@@ -593,6 +586,8 @@ func PutBinaryExpression(expr *BinaryExpression) {
 	expr.Left = nil
 	expr.Right = nil
 	expr.Operator = ""
+	expr.Not = false
+	expr.CustomOp = nil
 	binaryExprPool.Put(expr)
 }
 
@@ -730,6 +725,7 @@ func PutExpression(expr Expression) {
 		switch e := current.(type) {
 		case *Identifier:
 			e.Name = ""
+			e.Table = ""
 			identifierPool.Put(e)
 
 		case *BinaryExpression:
@@ -742,6 +738,8 @@ func PutExpression(expr Expression) {
 			e.Left = nil
 			e.Right = nil
 			e.Operator = ""
+			e.Not = false
+			e.CustomOp = nil
 			binaryExprPool.Put(e)
 
 		case *LiteralValue:
@@ -761,6 +759,8 @@ func PutExpression(expr Expression) {
 			e.Over = nil
 			e.Distinct = false
 			e.Filter = nil
+			e.OrderBy = nil
+			e.WithinGroup = nil
 			functionCallPool.Put(e)
 
 		case *CaseExpression:
@@ -990,6 +990,8 @@ func PutFunctionCall(fc *FunctionCall) {
 	fc.Over = nil
 	fc.Distinct = false
 	fc.Filter = nil
+	fc.OrderBy = nil
+	fc.WithinGroup = nil
 	functionCallPool.Put(fc)
 }
 
